@@ -1,3 +1,5 @@
+//go:build drv_concurrent || drv_all
+
 package main
 
 import (
